@@ -5,6 +5,7 @@ the contract expects them) or become 'noexc' obligations.  In spec mode
 evaluation is pure and never forks.
 """
 import ast
+import re
 from . import smt
 from .smt import T, INT, BOOL, STR, U
 from .values import *  # noqa
@@ -267,6 +268,44 @@ class ExprMixin:
                            smt.app("str.from_int", STR, v.t))
         return self.uf("text_%s_%s" % (conv, k), [self.to_u(v)], STR)
 
+    def percent_model(self, a, b, st, exc):
+        """'fmt' % b for a constant format made of text, %s, %r and %%.  b a tuple or a sequence: one value per
+        placeholder (TypeError otherwise); b anything else with one placeholder: that value (assumption recorded when
+        the static type cannot exclude a tuple)"""
+        if not smt.is_const(a.ts[0]):
+            return None
+        fmt = smt.const_val(a.ts[0])
+        parts = re.split(r"(%[sr%])", fmt)
+        if "%" in "".join(p for p in parts if p not in ("%s", "%r", "%%")):
+            return None
+        n = sum(1 for p in parts if p in ("%s", "%r"))
+        kb = b.ty.kind
+        if kb == "tuple":
+            vals = tuple_items(b)
+            if len(vals) != n:
+                return None
+        elif kb == "list" and b.ty.args[0].kind != "unknown":
+            # tuple(seq): as many items as placeholders, else TypeError
+            self.require_noexc(st, smt.Eq(smt.Len(b.ts[0]), smt.Int(n)), "TypeError", "format_arity", exc)
+            vals = [SV(b.ty.args[0], [smt.At(c, smt.Int(i)) for c in b.ts]) for i in range(n)]
+        elif n == 1:
+            if kb in ("any", "opt"):
+                self.note("operand of a one-placeholder % format assumed not to be a tuple")
+            vals = [b]
+        else:
+            return None
+        out = smt.Str("")
+        i = 0
+        for p in parts:
+            if p in ("%s", "%r"):
+                out = smt.Concat(out, self.to_text(vals[i], st, p[1]))
+                i += 1
+            elif p == "%%":
+                out = smt.Concat(out, smt.Str("%"))
+            elif p:
+                out = smt.Concat(out, smt.Str(p))
+        return mk_str(out)
+
     # -- operators -------------------------------------------------------------
     def ev_UnaryOp(self, e, st, exc):
         out = []
@@ -328,6 +367,9 @@ class ExprMixin:
                 return mk_str(smt.const_val(a.ts[0]) * smt.const_val(b.t))
             raise Unsupported("symbolic string repetition")
         if ka in ("str", "tstr") and name == "Mod":
+            r = self.percent_model(a, b, st, exc)
+            if r is not None:
+                return r
             return mk_str(self.uf("strformat", [a.ts[0], self.to_u(b)], STR))
         if ka == "list" and kb == "list" and name == "Add":
             if a.ty.args[0].kind == "unknown":
@@ -653,6 +695,15 @@ class ExprMixin:
         raise Unsupported("generator expression outside all()/any()")
 
     def ev_ListComp(self, e, st, exc):
+        if len(e.generators) == 1 and not e.generators[0].ifs and isinstance(e.generators[0].target, ast.Name) \
+                and isinstance(e.elt, ast.Call) and isinstance(e.elt.func, ast.Name) and e.elt.func.id == "str" and len(e.elt.args) == 1 \
+                and isinstance(e.elt.args[0], ast.Name) and e.elt.args[0].id == e.generators[0].target.id and "str" not in st.env:
+            out = []
+            for s, xs in self.ev(e.generators[0].iter, st, exc):
+                if xs.ty.kind != "list" or xs.ty.args[0].kind == "unknown" or len(xs.ts) != 1:
+                    raise Unsupported("[str(x) for x in <%r>]" % (xs.ty,))
+                out.append((s, self.seq_texts(xs, s)))
+            return out
         if self.spec_mode:
             raise Unsupported("list comprehension in spec")
         r = self.listcomp_of_contract_call(e, st, exc)
